@@ -156,6 +156,45 @@ func (g *genState) next(h *histRun, i int) *hop {
 		if rng.Intn(6) == 0 {
 			o.LogID = "M" // opened under another id than the one its entries carry (LogOptions.ID is the caller's)
 		}
+		// LogOptions.Heads: mostly none (NewLog finds them); in a third of the opens exactly the unreferenced
+		// entries of the selection (what NewFromMultihash hands over); now and then an entry that another selected
+		// entry names ("opened at an earlier head": outside the invariants, merged but never appended to)
+		earlier := false
+		if len(keep) > 0 {
+			sel := map[string]iface.IPFSLogEntry{}
+			for _, k := range keep {
+				if k < len(h.w.created) {
+					sel[h.w.created[k].GetHash().String()] = h.w.created[k]
+				}
+			}
+			var selEntries []iface.IPFSLogEntry
+			for _, e := range sel {
+				selEntries = append(selEntries, e)
+			}
+			named := map[string]bool{}
+			for _, e := range selEntries {
+				for _, n := range e.GetNext() {
+					named[n.String()] = true
+				}
+			}
+			switch x := rng.Intn(12); {
+			case x < 4:
+				for _, k := range keep {
+					if k < len(h.w.created) && !named[h.w.created[k].GetHash().String()] {
+						o.Heads = append(o.Heads, k)
+					}
+				}
+				rng.Shuffle(len(o.Heads), func(a, b int) { o.Heads[a], o.Heads[b] = o.Heads[b], o.Heads[a] })
+			case x == 4:
+				for _, k := range keep {
+					if k < len(h.w.created) && named[h.w.created[k].GetHash().String()] {
+						o.Heads = []int{k}
+						earlier = true
+						break
+					}
+				}
+			}
+		}
 		if rng.Float64() < g.p.pDenyLog {
 			o.Deny = []string{pick(rng, identNames)}
 		}
@@ -183,7 +222,7 @@ func (g *genState) next(h *histRun, i int) *hop {
 			}
 		}
 		for _, so := range script {
-			if rng.Intn(3) > 0 {
+			if rng.Intn(3) > 0 && (!earlier || so.Kind == "join") {
 				g.pending = append(g.pending, so)
 			}
 		}
